@@ -27,6 +27,9 @@ def run(ctx):
     ctx.do(S.rule_sh2, only=SH2_ROWS)
     ctx.do(S.rule_ax1, [CORE], scope=ctx.scope(ENTRIES))
     ctx.do(SI.rule_pa1)
+    # projection / indefinite_orthogonalize through their client: no
+    # selection by an absolute threshold on scale-dependent rows
+    ctx.do(S.rule_hom1, parts=("hyp",), only={"TangentVector._compute_aux_data"})
     ctx.do(SI.rule_svd1)
     ctx.do(SI.rule_eigh1)
     ctx.do(NPR.rule_neg0, ["geometry_tools/utils/numerical.py", "geometry_tools/utils/core.py"])
